@@ -900,6 +900,86 @@ def gen_history(rng, n, main, enable_gs_junk):
     return steps
 
 
+def gen_sized(rng, main):
+    """a list and a map grown to a size around a power of two (where their
+    vectors / hash tables are exactly full or have just grown), then deletes,
+    inserts, gaps, appends and look-ups at the ends and in the middle"""
+    docs = {main: None, "q": None}
+    steps = [("new", main, None), ("new", "q", None)]
+
+    def do(st):
+        op, var, arg = st
+        outs = M.apply(docs[var], op, docs[arg] if op == "copy" else arg)
+        if outs is M.UNSPECIFIED:
+            return
+        docs[var] = outs[0].doc
+        steps.append(st)
+    n = rng.choice((6, 7, 8, 9, 15, 16, 17, 31, 32, 33))
+    kind = rng.choice(("list", "list", "map", "nested"))
+    base = {"list": b"", "map": b"", "nested": b"top.l"}[kind]
+    if kind == "map":
+        for i in range(n):
+            do(("set", main, b"key%d=%d" % (i, i)))
+    else:
+        for i in range(n):
+            do(("set", main, base + b"[+]=e%d" % i))
+    for _ in range(rng.randrange(6, 16)):
+        if kind == "map":
+            k = rng.randrange(0, n + 3)
+            r = rng.random()
+            if r < 0.35:
+                do(("delete", main, b"key%d" % k))
+            elif r < 0.6:
+                do(("set", main, b"key%d=new" % k))
+            elif r < 0.7:
+                do(("set", main, b"key%d#" % k))
+            elif r < 0.85:
+                do((rng.choice(("count", "keys")), main, b"."))
+            else:
+                do(("get", main, b"key%d" % k))
+            continue
+        cur = docs[main]
+        node = cur
+        if kind == "nested" and isinstance(cur, dict):
+            node = cur.get("top", {}).get("l") if isinstance(
+                cur.get("top"), dict) else None
+        ln = len(node) if isinstance(node, list) else 0
+        i = rng.choice((0, 1, ln // 2, max(ln - 2, 0), max(ln - 1, 0), ln,
+                        ln + 1, ln + 3))
+        r = rng.random()
+        if r < 0.3:
+            do(("delete", main, base + b"[%d]" % i))
+        elif r < 0.5:
+            do(("set", main, base + b"[%d+]=ins" % min(i, ln)))
+        elif r < 0.65:
+            do(("set", main, base + b"[%d]=at" % i))
+        elif r < 0.75:
+            do(("set", main, base + b"[+]=app"))
+        elif r < 0.8:
+            do(("set_subtree", main, base + b"[%d]" % i))
+        elif r < 0.85:
+            do(("copy", "q", main))
+        elif r < 0.92:
+            do(("count", main, base if base else b"."))
+        else:
+            do(("get", main, base + b"[%d]" % i))
+    return steps
+
+
+def sized_chunk(chunk_id, payload):
+    seed, tier, binary, workroot, count, main = payload
+    part = new_part()
+    wd = os.path.join(workroot, "z%s%d" % (main, chunk_id))
+    seqs = []
+    for i in range(count):
+        rng = random.Random("%d/Z/%s/%d/%d" % (seed, main, chunk_id, i))
+        seqs.append(gen_sized(rng, main))
+    run_sequences(binary, wd, seqs, part, model=None, per_case=1,
+                  sample_tag="F:sized:%s" % main, seen=set())
+    bump(part, "sized_container_histories", count)
+    return part
+
+
 def history_chunk(chunk_id, payload):
     seed, tier, binary, workroot, count, length, main = payload
     part = new_part()
@@ -1099,7 +1179,7 @@ def dispatch(chunk_id, payload):
     import time
     kind = payload[0]
     fn = {"A": explore_chunk, "H": history_chunk, "D": matrix_chunk,
-          "E": quote_chunk}[kind]
+          "E": quote_chunk, "Z": sized_chunk}[kind]
     t0 = time.time()
     part = fn(chunk_id, payload[1:])
     part.pop("_distinct_on", None)
@@ -1134,6 +1214,12 @@ def main():
     nhv = max(1, int((10 if quick else 80) * sc))
     for c in range(16):
         payloads.append(("H", seed, tier, binary, wr, nhv, 200, "vc"))
+    # F: containers of sizes around powers of two
+    nz = max(1, int((12 if quick else 150) * sc))
+    for c in range(8):
+        payloads.append(("Z", seed, tier, binary, wr, nz, "p"))
+    for c in range(4):
+        payloads.append(("Z", seed, tier, binary, wr, nz, "vc"))
     # D: matrix
     for var in ("p", "vc"):
         for e in ENTRY:
@@ -1143,7 +1229,7 @@ def main():
     for c in range(16):
         payloads.append(("E", seed, tier, binary, wr, nk))
     # long jobs first
-    order = {"A": 0, "H": 1, "E": 2, "D": 3}
+    order = {"A": 0, "H": 1, "E": 2, "D": 3, "Z": 2}
     payloads.sort(key=lambda p: order[p[0]])
     shown = set()
     for part in R.pmap(dispatch, payloads):
@@ -1167,7 +1253,9 @@ def main():
              "vnacal_property_*(ci=-1); D: each of the 8 entry points x %d "
              "malformed / mismatching descriptors x start trees x both APIs; "
              "E: vnaproperty_quote_key on random valid-UTF-8 keys, the result "
-             "used as descriptor component among look-alike keys.  After "
+             "used as descriptor component among look-alike keys; F: lists "
+             "and maps grown to 6..9, 15..17, 31..33 entries, then deletes, "
+             "inserts, gaps and appends at the ends and in the middle.  After "
              "every operation: return value, errno class and FNV-1a hash of "
              "the canonical dump are compared with pylib/docmodel.py.  "
              "distinct = distinct (document state, operation, descriptor) "
